@@ -22,23 +22,31 @@ import (
 // The driver evaluates the declarative oracle on them (no model trace is compared here: which
 // late rows are still accepted depends on the free-running schedule; the oracle allows both).
 
+// sqlDur spells a duration of ms milliseconds: `1500ms`, or (cfg `spell go`) the way Go prints it — `1.5s`, `1m30s`, `500ms`
+func sqlDur(c Case, ms int64) string {
+	if cfgStr(c, "spell", "ms") == "go" {
+		return (time.Duration(ms) * time.Millisecond).String()
+	}
+	return fmt.Sprintf("%dms", ms)
+}
+
 func sqlWindowClause(c Case) string {
 	switch cfgStr(c, "kind", "") {
 	case "sqltumbling":
-		return fmt.Sprintf("TumblingWindow('%dms')", cfgInt(c, "size", 1000))
+		return fmt.Sprintf("TumblingWindow('%s')", sqlDur(c, cfgInt(c, "size", 1000)))
 	case "sqlsliding":
-		return fmt.Sprintf("SlidingWindow('%dms','%dms')", cfgInt(c, "size", 1000), cfgInt(c, "slide", 500))
+		return fmt.Sprintf("SlidingWindow('%s','%s')", sqlDur(c, cfgInt(c, "size", 1000)), sqlDur(c, cfgInt(c, "slide", 500)))
 	case "sqlsession":
-		return fmt.Sprintf("SessionWindow('%dms')", cfgInt(c, "timeout", 1000))
+		return fmt.Sprintf("SessionWindow('%s')", sqlDur(c, cfgInt(c, "timeout", 1000)))
 	}
 	return ""
 }
 
 func execSQLWindowOnce(c Case) ([][]string, bool) {
 	sql := "SELECT k, count(*) AS c, sum(id) AS s, collect(id) AS ids, window_start() AS ws, window_end() AS we FROM stream GROUP BY k, " +
-		sqlWindowClause(c) + fmt.Sprintf(" WITH (TIMESTAMP='ts', TIMEUNIT='ms', MAXOUTOFORDERNESS='%dms'", cfgInt(c, "ooo", 0))
+		sqlWindowClause(c) + fmt.Sprintf(" WITH (TIMESTAMP='ts', TIMEUNIT='ms', MAXOUTOFORDERNESS='%s'", sqlDur(c, cfgInt(c, "ooo", 0)))
 	if l := cfgInt(c, "late", 0); l > 0 {
-		sql += fmt.Sprintf(", ALLOWEDLATENESS='%dms'", l)
+		sql += fmt.Sprintf(", ALLOWEDLATENESS='%s'", sqlDur(c, l))
 	}
 	sql += ")"
 	s := streamsql.New(streamsql.WithDiscardLog())
